@@ -78,7 +78,9 @@ FirstClauses(ev, post) ==
   \o WFClauses(TRUE, post)
 
 AnalysisClauses(pre, ev, post) ==
-  << Cl("C17.StateUnchanged", TRUE, SameState(post, pre)) >>
+  << Cl("C17.StateUnchanged", TRUE, SameState(post, pre)),
+     Cl("C17.DeepUnchanged", "deep0" \in DOMAIN ev, ev.deep0 = ev.deep1),
+     Cl("C17.ArgsUnchanged", "args0" \in DOMAIN ev, ev.args0 = ev.args1) >>
 
 ClausesOf(pre, ev, post) ==
   IF ev.op = "mark" THEN <<>>
@@ -90,7 +92,7 @@ AllClauseNames ==
   {"C14.WF.NameRegistry", "C14.WF.UniqueRails", "C14.WF.NamesRailsDisjoint",
    "C14.WF.RootsAreSources", "C14.WF.LoadLeaf", "C14.WF.OnlyMuxMultiParent", "C14.WF.OneMux",
    "C14.WF.LinkAcceptable", "C15.Unchanged.State", "C15.Unchanged.Reports", "C16.Structure",
-   "C16.NoAuxAnomaly", "C17.StateUnchanged", "note.UnexpectedAccept", "note.OverStrict",
+   "C16.NoAuxAnomaly", "C17.StateUnchanged", "C17.DeepUnchanged", "C17.ArgsUnchanged", "note.UnexpectedAccept", "note.OverStrict",
    "note.Unmodelled", "events", "rejected", "accepted"}
 
 Init == /\ ti = 1 /\ k = 1
